@@ -1,0 +1,114 @@
+//go:build verif
+
+// Contracts for gvc (/verif). Comment-only: this file adds no declarations.
+
+package highlight
+
+// C30: syntax highlighting never changes the text and is never stale.
+//
+// Content is stated without a "concatenation" function: every segment appended
+// to the result is a slice of the code itself (same backing array), the first one
+// starts where the code starts, each next one starts exactly where the previous
+// one ends, and the last one ends where the code ends. Pieces of one string laid
+// end to end from its first to its last byte ARE that string, whatever the code
+// is (valid, invalid, invalid UTF-8). The ghost call log records the appends to
+// `text` (log append:text); seg(k) below is the k-th appended segment.
+//
+// Assumed (not provable here): region ranges lie inside the code (node ranges:
+// C01; ranges reported by cfg.Check: assumption), so slice bounds are not
+// obligations of these contracts (nosafety).
+
+
+// regions produced by the tree walk and by error reports have Begin <= End (assumed)
+//@ func getRegions
+//@   trusted
+//@   pure
+//@   ensures forall k int :: 0 <= k && k < len(result) ==> 0 <= result[k].Begin && result[k].Begin <= result[k].End
+
+// fixRegions: the kept regions are in order and do not overlap (whatever
+// sort.Slice did: the filter alone guarantees it), and each is one of the inputs'
+// shapes (Begin <= End).
+//@ func fixRegions
+//@   props C30
+//@   nosafety
+//@   requires forall k int :: 0 <= k && k < len(regions) ==> 0 <= regions[k].Begin && regions[k].Begin <= regions[k].End
+//@   loop 1 invariant 0 <= lastEnd
+//@   loop 1 invariant forall k int :: 0 <= k && k < len(newRegions) ==> 0 <= newRegions[k].Begin && newRegions[k].Begin <= newRegions[k].End && newRegions[k].End <= lastEnd
+//@   loop 1 invariant forall k int :: 0 <= k && k < len(newRegions) - 1 ==> newRegions[k].End <= newRegions[k + 1].Begin
+//@   loop 1 invariant len(newRegions) >= 1 ==> newRegions[len(newRegions) - 1].End == lastEnd
+//@   loop 1 invariant forall k int :: 0 <= k && k < len(regions) ==> 0 <= regions[k].Begin && regions[k].Begin <= regions[k].End
+//@   ensures [well-formed] forall k int :: 0 <= k && k < len(result) ==> 0 <= result[k].Begin && result[k].Begin <= result[k].End
+//@   ensures [ordered-without-overlap] forall k int :: 0 <= k && k < len(result) - 1 ==> result[k].End <= result[k + 1].Begin
+
+// highlight: the immediate result. Loops 1 and 2 collect error regions and tips
+// (nothing is appended to the text there); loop 3 assembles the text. The log
+// kind append:text.Text records, for each append to `text`, the appended segment
+// (callarg) and its Text at that moment (callarg1); piece(k) = callarg1(k).(string).
+// Invariant of loop 3, with n = ncalls appends so far:
+//   (a) text is exactly the appended segments, in order, and their texts are the logged ones;
+//   (b) every piece is a slice of `code` (same backing array);
+//   (c) each piece starts where the previous one ends;
+//   (d) the first piece starts at the start of code and the last one ends at code[lastEnd];
+//   (e) nothing appended yet means lastEnd == 0;
+//   (f) the regions are well-formed and ordered, and lastEnd is the end of the previous region.
+//@ spec fn piece(v any) string = v.(string)
+//@ func highlight
+//@   props C30
+//@   nosafety
+//@   log append:text.Text go
+//@   results out tips2
+//@   loop 1 invariant ncalls == 0 && ncallsof("go") == 0
+//@   loop 2 invariant ncalls == 0 && ncallsof("go") == 0
+//@   loop 3 invariant ncallsof("go") == 0 && ncalls == len(text) && 0 <= lastEnd
+//@   loop 3 invariant forall k int :: 0 <= k && k < ncalls ==> text[k] === callarg(k).(*ui.Segment)
+//@   loop 3 invariant forall k int :: 0 <= k && k < ncalls ==> allocated(callarg(k).(*ui.Segment))
+//@   loop 3 invariant forall k int :: 0 <= k && k < ncalls ==> callarg(k).(*ui.Segment).Text === piece(callarg1(k))
+//@   loop 3 invariant forall k int :: 0 <= k && k < ncalls ==> samebase(piece(callarg1(k)), code)
+//@   loop 3 invariant forall k int :: 0 <= k && k < ncalls - 1 ==> stroff(piece(callarg1(k + 1))) == stroff(piece(callarg1(k))) + len(piece(callarg1(k)))
+//@   loop 3 invariant ncalls >= 1 ==> stroff(piece(callarg1(0))) == stroff(code) && stroff(piece(callarg1(ncalls - 1))) + len(piece(callarg1(ncalls - 1))) == stroff(code) + lastEnd
+//@   loop 3 invariant ncalls == 0 ==> lastEnd == 0
+//@   loop 3 invariant range_pos == 0 ==> lastEnd == 0 && ncalls == 0
+//@   loop 3 invariant forall k int :: 0 <= k && k < len(regions) ==> 0 <= regions[k].Begin && regions[k].Begin <= regions[k].End
+//@   loop 3 invariant forall k int :: 0 <= k && k < len(regions) - 1 ==> regions[k].End <= regions[k + 1].Begin
+//@   loop 3 invariant range_pos >= 1 ==> lastEnd == regions[range_pos - 1].End
+//   the finished text, before anything concurrent starts / when no lookup is configured
+//@   before go [text-is-the-logged-segments] ncallsof("go") == 0 ==> ncalls == len(text) && (forall k int :: 0 <= k && k < ncalls ==> text[k] === callarg(k).(*ui.Segment) && callarg(k).(*ui.Segment).Text === piece(callarg1(k)))
+//@   before go [pieces-are-consecutive-slices-of-the-code] ncallsof("go") == 0 ==> (forall k int :: 0 <= k && k < ncalls ==> samebase(piece(callarg1(k)), code)) && (forall k int :: 0 <= k && k < ncalls - 1 ==> stroff(piece(callarg1(k + 1))) == stroff(piece(callarg1(k))) + len(piece(callarg1(k))))
+//@   before go [pieces-cover-the-whole-code] ncallsof("go") == 0 && lastEnd <= len(code) ==> ncalls >= 1 && stroff(piece(callarg1(0))) == stroff(code) && stroff(piece(callarg1(ncalls - 1))) + len(piece(callarg1(ncalls - 1))) == stroff(code) + len(code)
+//@   exit [result-is-the-logged-segments] ncallsof("go") == 0 ==> out === text && ncalls == len(text) && (forall k int :: 0 <= k && k < ncalls ==> text[k] === callarg(k).(*ui.Segment) && callarg(k).(*ui.Segment).Text === piece(callarg1(k)))
+//@   exit [pieces-are-consecutive-slices-of-the-code] ncallsof("go") == 0 ==> (forall k int :: 0 <= k && k < ncalls ==> samebase(piece(callarg1(k)), code)) && (forall k int :: 0 <= k && k < ncalls - 1 ==> stroff(piece(callarg1(k + 1))) == stroff(piece(callarg1(k))) + len(piece(callarg1(k))))
+//   (provided the last region ends inside the code: node ranges, C01, and the assumption on cfg.Check)
+//@   exit [pieces-cover-the-whole-code] ncallsof("go") == 0 && lastEnd <= len(code) ==> (ncalls == 0 ==> len(code) == 0) && (ncalls >= 1 ==> stroff(piece(callarg1(0))) == stroff(code) && stroff(piece(callarg1(ncalls - 1))) + len(piece(callarg1(ncalls - 1))) == stroff(code) + len(code))
+
+// The late path (command lookup in a goroutine, delivery through a channel) is
+// NOT covered: it restyles segments of a clone through interior pointers
+// (&newText[i]), which the engine does not model. These two literals are left
+// unverified on purpose (trusted, empty contracts) so that they are not executed
+// inline either.
+//@ func highlight$2
+//@   trusted
+//@ func highlight$3
+//@   trusted
+
+// Highlighter.Get$1 is the callback that receives a late result. It is only ever
+// stored for the code it was computed for: if the cached code has changed in the
+// meantime the result is dropped and the cache is left exactly as it was; and it
+// never touches the cached code itself. The cache lock is released on every path.
+//@ func Highlighter.Get$1
+//@   props C30
+//@   nosafety
+//@   log sync.Mutex.Lock sync.Mutex.Unlock
+//@   exit [late-result-for-other-code-is-dropped] old(hl.cache.code) != code ==> hl.cache === old(hl.cache)
+//@   exit [lock-released] ncallsof("sync.Mutex.Lock") == ncallsof("sync.Mutex.Unlock")
+
+// Get: a cache hit returns the cached text for exactly that code; otherwise the
+// code is highlighted once and the cache records the result under that code.
+//@ func Highlighter.Get
+//@   props C30
+//@   nosafety
+//@   log highlight sync.Mutex.Lock sync.Mutex.Unlock
+//@   results styled tips
+//@   exit [cache-hit-highlights-nothing] old(hl.cache.code) == code ==> ncallsof("highlight") == 0 && styled === old(hl.cache.styledCode)
+//@   exit [cache-miss-highlights-that-code-once] old(hl.cache.code) != code ==> ncallsof("highlight") == 1 && (forall k int :: 0 <= k && k < ncalls && callis(k, "highlight") ==> callarg(k) === code && styled === callres(k).(ui.Text))
+//@   exit [cache-records-the-result-under-that-code] old(hl.cache.code) != code ==> hl.cache.code === code && hl.cache.styledCode === styled
+//@   exit [lock-released] ncallsof("sync.Mutex.Lock") == ncallsof("sync.Mutex.Unlock")
